@@ -189,6 +189,27 @@ pub fn towers(d: usize) -> Vec<R> {
     out
 }
 
+/// wide terms: every variable-arity constructor with 9 and 17 components (beyond any small
+/// fixed-size shortcut), images with the placeholder first / in the middle / last
+pub fn wide_terms() -> Vec<R> {
+    let mut out = vec![];
+    for n in [9usize, 17] {
+        let elems: Vec<R> = (0..n).map(|i| if i % 4 == 3 { R::atom(Tag::IVar, &format!("v{i}")) } else { R::word(&format!("w{i}")) }).collect();
+        for &tag in COMPOUND_TAGS.iter() {
+            match tag.shape() {
+                Shape::Set | Shape::Seq => out.push(R::node(tag, elems.clone())),
+                Shape::Image => {
+                    for idx in [0, n / 2, n] {
+                        out.push(R::image(tag, idx, elems.clone()));
+                    }
+                }
+                _ => {}
+            }
+        }
+    }
+    out
+}
+
 /// U_term for a format and tier (distinct recipes; see DESIGN 3.1).
 pub fn u_term(f: &F, tier: Tier) -> Vec<R> {
     let mut out = all_atoms(f);
@@ -200,6 +221,7 @@ pub fn u_term(f: &F, tier: Tier) -> Vec<R> {
             items.extend([R::word("b1"), R::atom(Tag::QVar, "x-y"), R::interval(0)]);
             apply_all(&items, 2, &mut out); // T2(2)
             out.extend(towers(8));
+            out.extend(wide_terms());
         }
         Tier::Thorough => {
             out = all_atoms_extended(f);
@@ -216,6 +238,7 @@ pub fn u_term(f: &F, tier: Tier) -> Vec<R> {
             apply_all_limited(&t3_items, &mut out);
             out.extend(towers(8));
             out.extend(towers(64));
+            out.extend(wide_terms());
         }
     }
     out
